@@ -124,6 +124,7 @@ Parameter                                Default value     Description
 
 
 _connection_id_generator = itertools.count(1)
+_RESOLVED = object()  # label of a LOCAL_REF that _resolve_local_refs has already looked up
 
 
 class Connection(object):
@@ -281,15 +282,30 @@ class Connection(object):
             self._local_objects.add(id_pack, obj)
             return consts.LABEL_REMOTE_REF, id_pack
 
-    def _unbox(self, package):  # boxing
+    def _resolve_local_refs(self, package):  # boxing
+        """replace every LOCAL_REF of a package by the object itself.  Done before any proxy is created: creating
+        a proxy may need a round trip (HANDLE_INSPECT) whose nested serve() can dispatch a release notice for an
+        object this very package refers to"""
+        label, value = package
+        if label == consts.LABEL_TUPLE:
+            return label, tuple(self._resolve_local_refs(item) for item in value)
+        if label == consts.LABEL_LOCAL_REF:
+            return _RESOLVED, self._local_objects[value]
+        return package
+
+    def _unbox(self, package, _resolved=False):  # boxing
         """recreate a local object representation of the remote object: if the
         object is passed by value, just return it; if the object is passed by
         reference, create a netref to it"""
+        if not _resolved:
+            package = self._resolve_local_refs(package)
         label, value = package
+        if label is _RESOLVED:
+            return value
         if label == consts.LABEL_VALUE:
             return value
         if label == consts.LABEL_TUPLE:
-            return tuple(self._unbox(item) for item in value)
+            return tuple(self._unbox(item, True) for item in value)
         if label == consts.LABEL_LOCAL_REF:
             return self._local_objects[value]
         if label == consts.LABEL_REMOTE_REF:
